@@ -5,7 +5,7 @@
    see the ledger theorems, added with the ledger model. *)
 From Coq Require Import String.
 From Coq Require Import List NArith Bool.
-From Sia Require Import Prim.Tok Codec.Schema Codec.Shape Codec.Irregular Gen.Schemas Codec.Oblig.
+From Sia Require Import Codec.Canonical Codec.PolicyWire Codec.PolicyBounds Prim.Tok Codec.Schema Codec.Shape Codec.Irregular Gen.Schemas Codec.Oblig.
 Import ListNotations.
 
 Theorem C10_slice_alloc_bound : forall recog s b l r,
@@ -23,3 +23,14 @@ Print Assumptions C10_bytes_alloc_bound.
 Theorem C10_all_shapes_wellformed : forallb wf_ok gen_types = true.
 Proof. exact all_wf. Qed.
 Print Assumptions C10_all_shapes_wellformed.
+
+(* the recursive policy decoder: every policy it returns nests at most 32 thresholds deep (hostile input cannot drive
+   the recursion deeper), and has no more nodes than the input has bytes *)
+Theorem C10_policy_depth_bounded : forall b p r, byte_okl b -> dec_pw max_policy_levels b = Some (p, r) -> (pw_depth p <= 32)%nat.
+Proof. exact decoded_policy_depth. Qed.
+Print Assumptions C10_policy_depth_bounded.
+
+Theorem C10_policy_size_bounded : forall b p r, byte_okl b -> dec_pw max_policy_levels b = Some (p, r) ->
+  (pw_nodes p + List.length r <= List.length b)%nat.
+Proof. exact decoded_policy_size. Qed.
+Print Assumptions C10_policy_size_bounded.
